@@ -30,7 +30,21 @@ def bpcOfKind : Kind → Nat
 
 /-- The BMP format stores sizes in 32-bit fields: the theorem covers every image whose file fits. -/
 def FitsBmp (k : Kind) (w h : Nat) : Prop :=
-  w < 2147483648 ∧ h < 2147483648 ∧ 54 + ncolsOfKind k * 4 + lineSize (bitsOfKind k) w * h < 4294967296
+  w < 2147483648 ∧ h < 2147483648 ∧ 54 + ncolsOfKind k * 4 + lineSize (bitsOfKind k) w * h < 4294967296 ∧
+  -- `_plausible_dimensions`: beyond 2^34 sample bits the writer keeps the bytes undecoded
+  w * h * bpcOfKind k < 17179869184
+
+/-- A well-formed image that fits the BMP format passes the writer's plausibility test. -/
+theorem C18_plausible_of_fits (k : Kind) (w h : Nat) (hw1 : 1 ≤ w) (hh1 : 1 ≤ h) (hfit : FitsBmp k w h) :
+    plausible w h (bpcOfKind k) = true := by
+  obtain ⟨h1, h2, _, h4⟩ := hfit
+  have hb : 0 < bpcOfKind k ∧ bpcOfKind k ≤ 32 := by cases k <;> decide
+  have e1 : 0 < w := by omega
+  have e2 : w < 2 ^ 31 := by omega
+  have e3 : 0 < h := by omega
+  have e4 : h < 2 ^ 31 := by omega
+  have e5 : w * h * bpcOfKind k < 2 ^ 34 := by omega
+  simp [plausible, plausDimLimit, plausBitsMax, plausTotalLimit, e1, e2, e3, e4, e5, hb.1, hb.2]
 
 /-- **bmp_rt.** For every gray-8, RGB-8 or 1-bit image of any width and height ≥ 1 (that fits the
     BMP format), stored unfiltered or through any lossless filter chain, as XObject or inline image,
@@ -43,13 +57,14 @@ theorem C18_bmp_rt (k : Kind) (inl : Bool) (w h : Nat) (data name : Bytes) (exis
       nm ∉ existing ∧ (∃ stem, nm = stem ++ extBmp) ∧
       readBMP file = some (w, h, samplesRGB k w h data) := by
   obtain ⟨hdct, hjpx, hjb⟩ := lossless_getLast filters hl
-  obtain ⟨file, hsave, hread⟩ := saveBmp_read k w h data hw1 hh1 hfit.1 hfit.2.1 hfit.2.2 hlen
+  obtain ⟨file, hsave, hread⟩ := saveBmp_read k w h data hw1 hh1 hfit.1 hfit.2.1 hfit.2.2.1 hlen
   have hsome := uniqueName_isSome existing name extBmp
   obtain ⟨nm, hnm⟩ := Option.isSome_iff_exists.mp hsome
   obtain ⟨hfresh, j, _, hj⟩ := uniqueName_fresh existing name extBmp nm hnm
   refine ⟨nm, file, ?_, hfresh, ?_, hread⟩
   · unfold exportImage
-    simp only [hdct, hjpx, hjb, if_false]
+    have hpl := C18_plausible_of_fits k w h hw1 hh1 hfit
+    simp only [hpl, Bool.not_true, Bool.false_eq_true, hdct, hjpx, hjb, if_false]
     cases k <;> cases inl <;>
       simp only [csOfKind, bpcOfKind, bitsOfKind, rowBytes, isRGB, isGray] at hsave ⊢ <;>
       simp only [(bmpArgs_bit1 w).1, (bmpArgs_bit1 w).2, (bmpArgs_rgb w).1, (bmpArgs_rgb w).2, (bmpArgs_gray w).1,
@@ -77,7 +92,7 @@ theorem C18_bmp_rt_pixelwise (k : Kind) (inl : Bool) (w h : Nat) (data name : By
 /-- Non-vacuity: a 3×2 RGB image (row length 9, not a multiple of 4) through Flate, with `Im0.bmp`
     already present, meets the hypotheses; and the exported file is what the reader decodes. -/
 example : FitsBmp .rgb8 3 2 ∧ (List.replicate 18 (7 : UInt8)).length = 2 * rowBytes .rgb8 3 := by
-  refine ⟨⟨by decide, by decide, by decide⟩, by decide⟩
+  refine ⟨⟨by decide, by decide, by decide, by decide⟩, by decide⟩
 
 example :
     (match exportImage ⟨[.flate], .rgb, false, 8, 3, 2, [73, 109, 48], (List.range 18).map UInt8.ofNat⟩ [[73, 109, 48, 46, 98, 109, 112]] with
@@ -99,15 +114,15 @@ theorem C18_bmp_pinned_cex :
 
 /-- **jpeg_bytes.** An image whose last filter is DCTDecode (gray or RGB; CMYK needs Pillow) is
     written unchanged — the file content is `stream.get_data()` — to a new `*.jpg` file. -/
-theorem C18_jpeg_bytes (im : ImgIn) (existing : List Bytes) (hd : im.filters.getLast? = some .dct)
-    (hcs : im.cmykMember = false) :
+theorem C18_jpeg_bytes (im : ImgIn) (existing : List Bytes) (hpl : plausible im.w im.h im.bits = true)
+    (hd : im.filters.getLast? = some .dct) (hcs : im.cmykMember = false) :
     ∃ nm, exportImage im existing = .ok (nm, im.data) ∧ nm ∉ existing ∧ ∃ stem, nm = stem ++ extJpeg := by
   have hsome := uniqueName_isSome existing im.name extJpeg
   obtain ⟨nm, hnm⟩ := Option.isSome_iff_exists.mp hsome
   obtain ⟨hfresh, j, _, hj⟩ := uniqueName_fresh existing im.name extJpeg nm hnm
   refine ⟨nm, ?_, hfresh, ?_⟩
   · unfold exportImage
-    simp [hd, hcs, withName, hnm]
+    simp [hpl, hd, hcs, withName, hnm]
   · rw [hj]; exact candidate_suffix im.name extJpeg j
 
 example : ([Flt.a85, Flt.dct] : List Flt).getLast? = some .dct := by decide
@@ -117,7 +132,7 @@ example : ([Flt.a85, Flt.dct] : List Flt).getLast? = some .dct := by decide
 /-- **raw_dump.** An image that is neither DCT/JPX/JBIG2 nor one of the bitmap kinds, and not a
     single-Flate stream (which needs Pillow), is dumped unchanged — file content = `get_data()` — under
     a new name `<name>[.k].<bits>.<w>x<h>.img`; nothing is lost and no existing file is touched. -/
-theorem C18_raw_dump (im : ImgIn) (existing : List Bytes)
+theorem C18_raw_dump (im : ImgIn) (existing : List Bytes) (hpl : plausible im.w im.h im.bits = true)
     (h1 : im.filters.getLast? ≠ some .dct) (h2 : im.filters.getLast? ≠ some .jpx)
     (h3 : im.filters.contains .jbig2 = false) (hb : im.bits ≠ 1)
     (hc : ¬ (im.bits = 8 ∧ (isRGB im.cs = true ∨ isGray im.cs = true))) (hf : im.filters ≠ [.flate]) :
@@ -130,12 +145,29 @@ theorem C18_raw_dump (im : ImgIn) (existing : List Bytes)
   · unfold exportImage
     have hc1 : ¬ (im.bits = 8 ∧ isRGB im.cs = true) := fun h => hc ⟨h.1, Or.inl h.2⟩
     have hc2 : ¬ (im.bits = 8 ∧ isGray im.cs = true) := fun h => hc ⟨h.1, Or.inr h.2⟩
-    rw [if_neg h1, if_neg h2, if_neg (by simpa using h3), if_neg hb, if_neg hc1, if_neg hc2, if_neg hf]
+    rw [if_neg (by simp [hpl]), if_neg h1, if_neg h2, if_neg (by simpa using h3), if_neg hb, if_neg hc1, if_neg hc2,
+      if_neg hf]
     exact withName_ok _ _ _ _ _ _ hnm rfl
   · rw [hj]; exact candidate_suffix im.name _ j
 
 /-- Non-vacuity: a 4-bit CMYK image through ASCII85. -/
 example : ([Flt.a85] : List Flt).getLast? ≠ some .dct ∧ (4 : Nat) ≠ 1 ∧ ([Flt.a85] : List Flt) ≠ [.flate] := by decide
+
+/-- **undecoded_dump.** An image whose Width, Height or BitsPerComponent is not plausible (zero, beyond
+    the 32-bit BMP fields, more than 32 bits per component, or ≥ 2^34 sample bits) is kept byte for byte
+    under a new name `<name>[.k].img`; the writer does not fail and touches no existing file. -/
+theorem C18_undecoded_dump (im : ImgIn) (existing : List Bytes) (hpl : plausible im.w im.h im.bits = false) :
+    ∃ nm, exportImage im existing = .ok (nm, im.data) ∧ nm ∉ existing ∧ ∃ stem, nm = stem ++ extUndecoded := by
+  have hsome := uniqueName_isSome existing im.name extUndecoded
+  obtain ⟨nm, hnm⟩ := Option.isSome_iff_exists.mp hsome
+  obtain ⟨hfresh, j, _, hj⟩ := uniqueName_fresh existing im.name _ nm hnm
+  refine ⟨nm, ?_, hfresh, ?_⟩
+  · unfold exportImage
+    rw [if_pos (by simp [hpl])]
+    exact withName_ok _ _ _ _ _ _ hnm rfl
+  · rw [hj]; exact candidate_suffix im.name _ j
+
+example : plausible 0 5 8 = false ∧ plausible 3 3 64 = false ∧ plausible 70000 70000 8 = false := by decide
 
 /-! ## Distinct images get distinct file names -/
 
